@@ -23,7 +23,7 @@ from pydrobert.speech import post as _post
 PROPERTY = "C17"
 LEVEL = "exploration"
 TIERS = {
-    "quick": {"runs": 8000, "budget": 75, "selftest": 32, "shrink_budget": 300},
+    "quick": {"runs": 80000, "budget": 70, "selftest": 64, "shrink_budget": 300},
     "thorough": {"runs": 200000, "budget": 1200, "selftest": 2000, "shrink_budget": 1000},
 }
 RULE = (
